@@ -32,11 +32,17 @@ type ListIter struct {
 	Panic bool
 	// Fired: the injected failure / panic actually happened.
 	Fired bool
+	// OnLand, if set, is called with the index the iterator has just been positioned on
+	// (a storage that does work - or lets other work happen - while it is being read).
+	OnLand func(idx int)
 }
 
 func NewListIter(s []Sample) *ListIter { return &ListIter{S: s, pos: -1, FailAt: -1} }
 
 func (it *ListIter) land() chunkenc.ValueType {
+	if it.OnLand != nil {
+		it.OnLand(it.pos)
+	}
 	if it.failed {
 		return chunkenc.ValNone
 	}
